@@ -10,10 +10,10 @@ use serde_json::{json, Value};
 pub fn def() -> PropDef {
     PropDef {
         id: "C12",
-        rule: "set_flags: all 65536 header words x all 65536 low argument halves (upper half 0) plus all words x {each single upper bit, 0xffff, 16 seed-chosen upper halves} x 64 low patterns; set_opcode/set_rcode: all words x all 256 arguments; set_response (method and associated function): all words x {true,false}; set_tid: all words x 8 ids; on two base packets (with and without OPT); every ordered pair of 41 setter instances x 40 header words on a freshly parsed packet; distinct classes = (setter, whether a bit outside the field was at stake, argument class)",
+        rule: "set_flags: all 65536 header words x all 65536 low argument halves (upper half 0) plus all words x {each single upper bit, 0xffff, 16 seed-chosen upper halves} x 64 low patterns; set_opcode/set_rcode: all words x all 256 arguments; set_response (method and associated function): all words x {true,false}; set_tid: all words x 8 ids; on two base packets (with and without OPT); every ordered pair of 45 setter instances x 40 header words on a freshly parsed packet; distinct classes = (setter, whether a bit outside the field was at stake, argument class)",
         run,
         replay,
-        bounds: |_| json!({"header_words": 65536, "set_flags_low_halves": 65536, "upper_halves": 34, "opcode_rcode_args": 256, "tids": 8}),
+        bounds: |_| json!({"header_words": 65536, "set_flags_low_halves": 65536, "upper_halves": 34, "opcode_rcode_args": 256, "tids": 12}),
         assumptions: &["VERIF_SEED only chooses the 16 sampled upper halves of set_flags' argument, which the property itself calls sampled"],
         budget_s: |t| t.pick(50, 300),
         exhaustive: true,
@@ -180,10 +180,11 @@ fn run(ctx: &mut Ctx, rep: &mut Report) {
                 hot(rep, &mut pp, w, Setter::Response(b));
                 hot(rep, &mut pp, w, Setter::ResponseAssoc(b));
             }
-            for t in [0u16, 1, 0x00ff, 0xff00, 0x8000, 0x7fff, 0xffff, w] {
+            let base_tid = ((base[0] as u16) << 8) | base[1] as u16;
+            for t in [0u16, 1, 0x00ff, 0xff00, 0x8000, 0x7fff, 0xffff, w, base_tid, base_tid.swap_bytes(), !base_tid, base_tid.rotate_left(4)] {
                 hot(rep, &mut pp, w, Setter::Tid(t));
             }
-            rep.transitions += 12;
+            rep.transitions += 16;
             // classes: which fields of this word had bits a wrong mask would clobber
             rep.class(&format!("base={} opcode_bits={} rcode_bits={} qr={}", bi, (w & 0x7800 != 0) as u8, (w & 0xf != 0) as u8, (w >> 15)));
         }
@@ -198,7 +199,7 @@ fn run(ctx: &mut Ctx, rep: &mut Report) {
     // (apart from the header word the first one left)
     {
         let menu: Vec<Setter> = {
-            let mut m = vec![Setter::Response(true), Setter::Response(false), Setter::ResponseAssoc(true), Setter::ResponseAssoc(false), Setter::Tid(0), Setter::Tid(0xffff)];
+            let mut m = vec![Setter::Response(true), Setter::Response(false), Setter::ResponseAssoc(true), Setter::ResponseAssoc(false), Setter::Tid(0), Setter::Tid(0xffff), Setter::Tid(0x00ff), Setter::Tid(0xff00), Setter::Tid(0x3412), Setter::Tid(0x1234)];
             for v in [0u8, 1, 3, 5, 8, 15, 16, 0x2f, 0x80, 0xf0, 0xff] {
                 m.push(Setter::Opcode(v));
                 m.push(Setter::Rcode(v));
